@@ -93,7 +93,7 @@ Definition convert_color (from to : unit_mode) (c : list value) : res (list valu
 
 Definition time_conv (f : value -> res value) (v : value) : res value :=
   match v with
-  | VTime _ => Err ETypeError          (* TimePattern * 1000.0 *)
+  | VTime _ => Ok v                    (* a pending time-of-day pattern is left alone *)
   | _ => f v
   end.
 
